@@ -152,11 +152,18 @@ def lean_audit(pid, namespace, module):
     """Returns list of dicts {name, axioms, statement}."""
     d = LEAN / ".lake" / "audit"
     d.mkdir(parents=True, exist_ok=True)
-    f = d / f"{pid}.lean"
+    # (one file per process and namespace: concurrent runs of the same check must not overwrite each other's file)
+    f = d / f"{pid}-{namespace.split('.')[-1]}-{os.getpid()}.lean"
     f.write_text(f"import SpecVerif.Audit\nimport {module}\n#audit_ns {namespace}\n")
-    r = subprocess.run(
-        ["lake", "env", "lean", str(f)], cwd=LEAN, capture_output=True, text=True, timeout=600
-    )
+    try:
+        r = subprocess.run(
+            ["lake", "env", "lean", str(f)], cwd=LEAN, capture_output=True, text=True, timeout=600
+        )
+    finally:
+        try:
+            f.unlink()
+        except OSError:
+            pass
     if r.returncode != 0:
         return None, r.stdout + r.stderr
     out = []
@@ -667,7 +674,7 @@ def _run_check(mod, tier, seed, replay=None):
         "coverage": {
             "obligations": obligations,
             "discharged": discharged,
-            "checker_cmd": f"cd lean && lake build {' '.join(mod.LEAN_TARGETS)} && lake env lean .lake/audit/{pid}.lean  (#audit_ns lists each theorem's axioms)",
+            "checker_cmd": f"cd lean && lake build {' '.join(mod.LEAN_TARGETS)} && lake env lean <file with `import SpecVerif.Audit; import <module>; #audit_ns <namespace>`>  (#audit_ns lists each theorem's axioms)",
             "trusted_base": TRUSTED_BASE + list(getattr(mod, "TRUSTED_EXTRA", [])),
             "theorems": [t["name"] for t in theorems],
             "proof_problems": proof_problems,
